@@ -2,7 +2,7 @@
 """Systematic one-line mutation campaign against /repo, used to look for blind spots of the checks.
 
   tools/mutate.py list                 -> prints the mutants it would try (file:line operator)
-  tools/mutate.py run [--max N] [--only core|macros|bevy] [--out FILE] [--start K]
+  tools/mutate.py run [--max N] [--only core|macros|bevy] [--out FILE] [--start K] [--idx a,b,c]
         applies one mutant at a time to /repo's working tree (which must be clean), runs the quick
         tier of the relevant checks through ./vcheck (stopping at the first check that reports a
         VIOLATION), reverts with `git checkout`, and appends one JSON line per mutant to FILE.
@@ -116,6 +116,7 @@ def revert():
 def run(args):
     groups = ["core", "macros", "bevy"]
     mx, out, start = 10 ** 9, os.path.join(VERIF, "build", "mutation.jsonl"), 0
+    only_idx = None
     i = 0
     while i < len(args):
         if args[i] == "--max":
@@ -126,6 +127,8 @@ def run(args):
             out = args[i + 1]; i += 1
         elif args[i] == "--start":
             start = int(args[i + 1]); i += 1
+        elif args[i] == "--idx":
+            only_idx = set(int(x) for x in args[i + 1].split(",")); i += 1
         i += 1
     if sh("git diff --quiet", cwd=REPO).returncode != 0:
         print("repo dirty"); return 2
@@ -137,7 +140,7 @@ def run(args):
     os.makedirs(os.path.dirname(out), exist_ok=True)
     f = open(out, "a")
     for idx, m in enumerate(ms):
-        if idx < start:
+        if idx < start or (only_idx is not None and idx not in only_idx):
             continue
         t0 = time.time()
         try:
